@@ -116,6 +116,11 @@ pub struct DelegCase {
     /// inside the body `Self` must see the same constant as `<Unimock as Tr>::K` (10)
     #[serde(default)]
     pub assoc_const: u8,
+    /// the trait has a third required method `r2` with a clause expecting exactly one call that never happens: the
+    /// verification at the end of the instance's life (inside the last call for by-value / sole-owner receivers)
+    /// must fail naming `Tr::r2`, exactly as it would after direct calls only
+    #[serde(default)]
+    pub unmet_extra: bool,
 }
 
 /// response of required method m for argument x (a known function, so results can be predicted)
@@ -242,12 +247,13 @@ pub fn source(c: &DelegCase) -> String {
     };
     let attr = if c.provided_has_real_fn {
         s.push_str("pub fn real_d(a: u32, b: u32) -> u32 {\n    log(format!(\"REAL-FUNCTION-OF-d:{a}:{b}\"));\n    777_000_000 + a + b\n}\n\n");
-        format!("#[unimock(api=M, unmock_with=[_, _, real_d(a, b)]{const_attr})]")
+        format!("#[unimock(api=M, unmock_with=[_, _, real_d(a, b){}]{const_attr})]", if c.unmet_extra { ", _" } else { "" })
     } else {
         format!("#[unimock(api=M{const_attr})]")
     };
+    let r2_decl = if c.unmet_extra { format!("    fn r2({rd_req}, x: u32) -> u32;\n") } else { String::new() };
     s.push_str(&format!(
-        "{attr}\npub trait Tr{sized} {{\n{const_decl}    fn r0({rd_req}, x: u32) -> u32;\n    fn r1({rd_req}, x: u32) -> u32;\n    fn d{dgen}({rd}, a: u32, b: u32{dparam}) -> u32 {{\n{}    }}\n}}\n\n",
+        "{attr}\npub trait Tr{sized} {{\n{const_decl}    fn r0({rd_req}, x: u32) -> u32;\n    fn r1({rd_req}, x: u32) -> u32;\n    fn d{dgen}({rd}, a: u32, b: u32{dparam}) -> u32 {{\n{}    }}\n{r2_decl}}}\n\n",
         body_source(c)
     ));
     s.push_str("pub fn run() -> String {\n");
@@ -291,6 +297,9 @@ pub fn source(c: &DelegCase) -> String {
         if c.later_answering_clause {
             clauses.push(format!("M::d{dwt}.each_call(&|m| m.func(|_, _| true)).answers(&|_, _, _{dans}| 424242u32)"));
         }
+    }
+    if c.unmet_extra {
+        clauses.push("M::r2.each_call(&|m| m.func(|_, _| true)).answers(&|_, x| x).n_times(1)".to_string());
     }
     s.push_str("    let mut dc = unimock::verif::DynClause::new();\n");
     for cl in &clauses {
@@ -369,7 +378,14 @@ pub fn judge(c: &DelegCase, line: &str) -> Result<CaseInfo, String> {
         c.history,
         if c.ordered { "ordered" } else { "unordered" }
     );
-    if parts[2] != "ok" {
+    if c.unmet_extra {
+        if parts[2] == "ok" {
+            return Err(format!("{desc}: the clause `r2 .. n_times(1)` was never matched, yet the instance ended its life without a verification failure"));
+        }
+        if !parts[2].contains("Tr::r2") {
+            return Err(format!("{desc}: the run panicked, but not with the verification failure about Tr::r2: {}", parts[2]));
+        }
+    } else if parts[2] != "ok" {
         return Err(format!(
             "{desc}: the run panicked instead of delegating: {}",
             parts[2]
@@ -390,7 +406,7 @@ pub fn judge(c: &DelegCase, line: &str) -> Result<CaseInfo, String> {
     } else {
         parts[1].split('\u{2}').collect()
     };
-    if res != want_res.iter().map(|s| s.as_str()).collect::<Vec<_>>() {
+    if !c.unmet_extra && res != want_res.iter().map(|s| s.as_str()).collect::<Vec<_>>() {
         return Err(format!(
             "{desc}: results {res:?}, inlining the default body gives {want_res:?}"
         ));
@@ -421,6 +437,7 @@ pub fn judge(c: &DelegCase, line: &str) -> Result<CaseInfo, String> {
     .class_if(c.partial, "partial-mock")
     .class_if(c.generic_method, "provided-method-has-a-type-parameter")
     .class_if(c.provided_has_real_fn, "provided-method-also-has-a-real-function")
+    .class_if(c.unmet_extra, "an-unmet-expectation-must-fail-the-final-verification")
     .class_if(c.assoc_const % 3 == 1, "body-reads-an-associated-const-supplied-by-the-attribute")
     .class_if(c.assoc_const % 3 == 2, "body-reads-an-associated-const-whose-trait-default-the-attribute-overrides")
     .class_if(c.catch_all_default && c.explicit_default_impl && !c.ordered && c.default_body_calls().is_none(), "catch-all-applies_default_impl-after-a-specific-clause")
@@ -480,9 +497,9 @@ pub fn case_strategy() -> impl Strategy<Value = DelegCase> {
         any::<bool>(),
         proptest::bool::weighted(0.4),
         any::<bool>(),
-        (prop_oneof![2 => Just(0u8), 1 => 1..8u8], proptest::bool::weighted(0.3), proptest::bool::weighted(0.3), proptest::bool::weighted(0.3), prop_oneof![2 => Just(0u8), 1 => Just(1u8), 1 => Just(2u8)]),
+        (prop_oneof![2 => Just(0u8), 1 => 1..8u8], proptest::bool::weighted(0.3), proptest::bool::weighted(0.3), proptest::bool::weighted(0.3), prop_oneof![2 => Just(0u8), 1 => Just(1u8), 1 => Just(2u8)], proptest::bool::weighted(0.3)),
     )
-        .prop_map(|(recv, mut body, mut history, ordered, explicit_default_impl, partial, later_answering_clause, (then_answer_after, generic_method, catch_all_default, provided_has_real_fn, assoc_const))| {
+        .prop_map(|(recv, mut body, mut history, ordered, explicit_default_impl, partial, later_answering_clause, (then_answer_after, generic_method, catch_all_default, provided_has_real_fn, assoc_const, unmet_extra))| {
             if recv == Recv::Value {
                 // a by-value receiver is consumed by the first call it is passed to
                 body.calls.truncate(1);
@@ -491,7 +508,7 @@ pub fn case_strategy() -> impl Strategy<Value = DelegCase> {
                 }
                 history.truncate(1);
             }
-            DelegCase { recv, body, history, ordered, explicit_default_impl, partial, later_answering_clause, then_answer_after, generic_method, catch_all_default, provided_has_real_fn, assoc_const }
+            DelegCase { recv, body, history, ordered, explicit_default_impl, partial, later_answering_clause, then_answer_after, generic_method, catch_all_default, provided_has_real_fn, assoc_const, unmet_extra }
         })
 }
 
